@@ -399,7 +399,9 @@ void command_handler::get(const std::vector<std::string> & args)
         throw cmdline_exception("usage: get remote-file [ local-file ]");
     }
 
-    if (std::filesystem::exists(local_file))
+    std::error_code ec;
+
+    if (std::filesystem::exists(local_file, ec))
     {
         throw cmdline_exception("File '%1%' already exists.", local_file);
     }
@@ -417,7 +419,7 @@ void command_handler::get(const std::vector<std::string> & args)
     /* Delete the created file in case of errors. */
     if (!replies.is_positive())
     {
-        std::filesystem::remove(local_file);
+        std::filesystem::remove(local_file, ec);
     }
 }
 
